@@ -2,8 +2,11 @@
 
 A case is a tree of grammar files (nested directories, diamonds, cycles,
 self-imports, overlapping rule names, qualified and unqualified references,
-link references, abstract / single-reference rules) plus model texts that
-exercise the referenced rules.
+link references with implicit / explicit match rule, abstract / single-reference
+rules, match rules — also named like the built-in rules ID, INT, … — and
+references to the built-in rules) plus model texts that exercise every kind of
+reference: rule references by objects, match-rule / built-in references by
+values (`# token`), the match rule of a link by `@ token`.
 
 Implementation side: the files are written to a scratch directory and loaded with
 `metamodel_from_file`; observed are the classes of every namespace with their
@@ -28,8 +31,27 @@ from harness.core import Check, use_repo
 
 COMMON = ["C0", "C1", "C2", "C3", "C4"]
 ABSTR = ["A0", "A1"]
+VALN = ["T0", "T1"]  # match rules with overlapping names
 BASE = ["ID", "STRING", "BOOL", "INT", "FLOAT", "STRICTFLOAT", "NUMBER", "BASETYPE", "OBJECT"]
+BUILTIN = BASE[:-1]  # the built-in rules a grammar can reference (and define again under the same name)
+BASENS = "__base__"
 KF_CYCLE = "C25-cyclic-imports"
+
+# The built-in rules (docs/src/grammar.md "textX base types" describes them; the regular expressions are the ones of
+# the language definition - only their behaviour on the few token shapes below matters); NUMBER and BASETYPE are
+# ordered choices, the first alternative matching a prefix wins.
+BUILTIN_RE = {
+    "ID": r"[^\d\W]\w*\b",
+    "BOOL": r"(True|true|False|false|0|1)\b",
+    "INT": r"[-+]?[0-9]+",
+    "FLOAT": r"[+-]?(\d+(\.\d*)?|\.\d+)([eE][+-]?\d+)?(?<=[\w\.])(?![\w\.])",
+    "STRICTFLOAT": r"[+-]?(((\d+\.(\d*)?|\.\d+)([eE][+-]?\d+)?)|((\d+)([eE][+-]?\d+)))(?<=[\w\.])(?![\w\.])",
+    "STRING": r'("(\\"|[^"])*")|(\'(\\\'|[^\'])*\')',
+}
+BUILTIN_ALT = {"NUMBER": ["STRICTFLOAT", "INT"], "BASETYPE": ["NUMBER", "FLOAT", "BOOL", "ID", "STRING"]}
+SAMPLE = {"ID": "x9", "BOOL": "true", "INT": "42", "FLOAT": "1.5", "STRICTFLOAT": "2.5", "STRING": '"s"',
+          "NUMBER": "42", "BASETYPE": "x9"}
+FULL, PART, NO = "full", "part", "no"
 
 
 # --------------------------------------------------------------------------
@@ -71,13 +93,131 @@ def abs_imports(f):
     return [nstr(abs_import(f["ns"], i)) for i in f["imports"]]
 
 
-def guarded(ref):
-    """references never exercised by a model text (link references, base-type names)"""
-    return ref["how"] == "link" or ref["n"] in BASE
+def is_val_name(name):
+    """names of match rules / built-in rules: referenced as `('#' a=NAME)?`, exercised by `# token`"""
+    return name in BASE or name.startswith("T")
+
+
+def is_match(rule):
+    return rule.get("kind") == "match"
+
+
+def is_link(ref):
+    return ref["how"] == "link"
+
+
+def link_refs(rule):
+    return [x for x in rule["refs"] if is_link(x)]
+
+
+def xrefs(rule):
+    """Every rule name the rule mentions, in the order the tables use: its references, then the match
+    rule of each link reference (`[X]` names ID implicitly, `[X:M]` names M)."""
+    return rule["refs"] + [{"q": None, "n": x.get("m") or "ID", "how": "lm"} for x in link_refs(rule)]
 
 
 def kw(idx, ns, name):
     return f"k{idx[ns]}{name}"
+
+
+def marker(ref):
+    """`('#' a=NAME)?` (value kept), `('$' NAME)?` (rule reference without assignment), `('@' l=[X:NAME])?`"""
+    return "@" if is_link(ref) else "$" if ref["how"] == "bare" else "#"
+
+
+def lex(i, name):
+    """The one lexeme of the match rule `name` of file number i.  No built-in rule accepts it, no
+    match rule of another file or name does, and the converter textX attaches to the *name* of a rule
+    (INT -> int(), FLOAT -> float(), …) accepts it (int("7_1") == 71)."""
+    if name == "INT":
+        return f"7_{i}"
+    if name == "FLOAT":
+        return f"8_{i}.5"
+    if name == "STRICTFLOAT":
+        return f"9_{i}.5"
+    return f"%{i}{name}"
+
+
+def convert(name, text):
+    """value of a match named `name` (docs: base types are converted to Python types)"""
+    if name == "INT":
+        return int(text)
+    if name in ("FLOAT", "STRICTFLOAT"):
+        return float(text)
+    if name == "BOOL":
+        return text == "1" or text.lower() == "true"
+    if name == "STRING":
+        return text[1:-1]
+    return text
+
+
+def builtin_accept(name, tok):
+    """(FULL | PART | NO, value): the built-in rule `name` on a token.  PART: it matches a proper
+    prefix; the rest of the token then matches nothing of the generated grammars."""
+    import re
+
+    if name in BUILTIN_ALT:
+        for alt in BUILTIN_ALT[name]:
+            a, v = builtin_accept(alt, tok)
+            if a != NO:
+                return a, v
+        return NO, None
+    m = re.match(BUILTIN_RE[name], tok)
+    if m is None or m.end() == 0:
+        return NO, None
+    if m.end() < len(tok):
+        return PART, None
+    return FULL, convert(name, tok)
+
+
+def kind_of(files, t):
+    """"base" / "match" / "other" for a resolved target [ns, name]"""
+    if not isinstance(t, list):
+        return None
+    if t[0] == BASENS:
+        return "base" if t[1] in BUILTIN else None
+    f = files.get(t[0])
+    r = rule_of(f, t[1]) if f else None
+    if r is None:
+        return None
+    return "match" if is_match(r) else "other"
+
+
+class _Touch(Exception):
+    """the parse depends on a reference the table does not decide (OUT)"""
+
+
+def target_accept(files, idx, table, t, tok, depth=0):
+    """(FULL | PART | NO, value) of the match rule / built-in rule t = [ns, name] on a token; None
+    when t is not such a rule.  A match rule is `'lexeme' | R1 | R2 …` (ordered choice, the first
+    alternative matching a prefix wins); its rule references are resolved by `table`."""
+    k = kind_of(files, t)
+    if k not in ("base", "match"):
+        return None
+    if tok is None or depth > 20:
+        return NO, None
+    ns, name = t
+    if k == "base":
+        return builtin_accept(name, tok)
+    lx = lex(idx[ns], name)
+    if tok == lx:
+        return FULL, convert(name, tok)
+    if tok.startswith(lx):
+        return PART, None
+    for tt in table.get((ns, name)) or []:
+        if tt == OUT:
+            raise _Touch()
+        acc = target_accept(files, idx, table, tt, tok, depth + 1)
+        if acc is not None and acc[0] != NO:
+            return acc
+    return NO, None
+
+
+def pos_token(idx, t):
+    """a token the match rule / built-in rule t accepts"""
+    if t[0] == BASENS:
+        return SAMPLE.get(t[1])
+    return lex(idx[t[0]], t[1])
 
 
 def closure(case):
@@ -136,7 +276,11 @@ def doc_resolve(files, ns, ref, skip=()):
     if rule_of(f, name) is not None:
         return [ns, name]
     if name in BASE:
-        return OUT
+        # a built-in rule.  The statement does not say whether a direct import defining a rule of
+        # that name comes before it (in textX the built-in rules are the first import of every file)
+        if any(defines(files, i, name) for i in abs_imports(f) if i not in skip):
+            return OUT
+        return [BASENS, name]
     for i in abs_imports(f):
         if i in skip:
             continue
@@ -150,7 +294,7 @@ def spec_table(case, clos, skipmap=None):
     tab = {}
     for ns in clos:
         for r in files[ns]["rules"]:
-            tab[(ns, r["name"])] = [doc_resolve(files, ns, x, (skipmap or {}).get(ns, ())) for x in r["refs"]]
+            tab[(ns, r["name"])] = [doc_resolve(files, ns, x, (skipmap or {}).get(ns, ())) for x in xrefs(r)]
     return tab
 
 
@@ -173,18 +317,44 @@ def peg_follow(files, table, t):
     return None
 
 
+class _Stuck(Exception):
+    """a rule matched a proper prefix of a token: nothing of the generated grammars matches the rest"""
+
+
 def simulate(case, table, tokens):
-    """Greedy PEG parse of `tokens` for the generated grammar shape under a resolution table
-    {(ns, rule): [target…]}, target = [ns, name].  Returns the object tree or "err"."""
+    """PEG parse of `tokens` for the generated grammar shape under a resolution table
+    {(ns, rule): [target…]} (targets in the order of `xrefs`; target = [ns, name], [BASENS, name],
+    None = matches nothing, OUT = not decided).  Returns the object tree, "err" (syntax error),
+    "sem" (parsed, a link was read: no object has a name, so it cannot be resolved) or "unknown"
+    (an OUT target was needed)."""
     files = files_of(case)
     idx = file_index(case)
+    linked = [False]
+
+    def value(t, pos):
+        """`'#' a=T` / `'$' T` / `'@' l=[X:T]` after the marker: (value, new pos) or None"""
+        if t == OUT:
+            raise _Touch()
+        if not isinstance(t, list):
+            return None
+        acc = target_accept(files, idx, table, t, tokens[pos] if pos < len(tokens) else None)
+        if acc is None:  # a common / abstract rule in value position
+            res = parse(t, pos, 0)
+            return None if res is None else ({"obj": res[0]}, res[1])
+        if acc[0] == PART:
+            raise _Stuck()
+        if acc[0] == NO:
+            return None
+        return {"v": repr(acc[1])}, pos + 1
 
     def parse(t, pos, depth):
+        if t == OUT:
+            raise _Touch()
         if depth > 200 or not isinstance(t, list) or t[0] not in files:
             return None
         ns, name = t
         r = rule_of(files[ns], name)
-        if r is None:
+        if r is None or is_match(r):
             return None
         targets = table.get((ns, name))
         if targets is None:
@@ -199,8 +369,24 @@ def simulate(case, table, tokens):
             return None
         pos += 1
         attrs = []
+        nlink = 0
         for j, ref in enumerate(r["refs"]):
-            if guarded(ref):
+            if is_link(ref):
+                mt = targets[len(r["refs"]) + nlink]
+                nlink += 1
+                if pos < len(tokens) and tokens[pos] == "@":
+                    res = value(mt, pos + 1)
+                    if res is not None:
+                        pos = res[1]
+                        linked[0] = True
+                continue
+            if is_val_name(ref["n"]):
+                if pos < len(tokens) and tokens[pos] == marker(ref):
+                    res = value(targets[j], pos + 1)
+                    if res is not None:
+                        pos = res[1]
+                        if ref["how"] != "bare":
+                            attrs.append([f"a{j}", [res[0]["obj"] if "obj" in res[0] else res[0]]])
                 continue
             items = []
             while True:
@@ -215,15 +401,28 @@ def simulate(case, table, tokens):
 
     main = case["main"]
     root = [main, files[main]["rules"][0]["name"]]
-    res = parse(root, 0, 0)
+    try:
+        res = parse(root, 0, 0)
+    except _Stuck:
+        return "err"
+    except _Touch:
+        return "unknown"
     if res is None or res[1] != len(tokens):
         return "err"
-    return res[0]
+    return "sem" if linked[0] else res[0]
+
+
+MAX_TEXTS = 5
+MAX_PROBES = 10
 
 
 def gen_texts(case, rng=None):
     """Token lists derived from the documented resolution: one text covering every reachable
-    reference once, plus short texts along single reference paths."""
+    reference once (objects for rule references, `# token` for references to match rules and
+    built-in rules), short texts along single reference paths, and probes: for a reachable
+    reference to a match rule / built-in rule and for the match rule of a reachable link, the
+    token of the documented target and the tokens of the competing rules of the same name (the
+    built-in one, the ones of the other files)."""
     clos = closure(case)
     if clos is None:
         return []
@@ -235,7 +434,19 @@ def gen_texts(case, rng=None):
     covered = set()
 
     def ok(t):
-        return isinstance(t, list) and (t[0], t[1]) in tab
+        return isinstance(t, list) and (t[0], t[1]) in tab and not is_match(rule_of(files[t[0]], t[1]))
+
+    def okv(t):
+        return kind_of(files, t) in ("base", "match") and pos_token(idx, t) is not None
+
+    def alt_tokens(t, depth=0):
+        """tokens that reach the alternatives of a match rule (`T1: 'lexeme' | T0 | INT;`)"""
+        out = []
+        if kind_of(files, t) == "match" and depth < 4:
+            for x in tab.get((t[0], t[1])) or []:
+                if okv(x):
+                    out += [pos_token(idx, x)] + alt_tokens(x, depth + 1)
+        return out
 
     def uncovered_alt(t):
         return ok(t) and is_abs_name(t[1]) and any((t[0], t[1], j) not in covered and ok(x)
@@ -264,7 +475,13 @@ def gen_texts(case, rng=None):
         if depth > 40:
             return out
         for j, ref in enumerate(r["refs"]):
-            if guarded(ref) or not ok(targets[j]) or (ns, name, j) in covered:
+            if is_link(ref):
+                continue
+            if is_val_name(ref["n"]):
+                if okv(targets[j]) and depth < 39:
+                    out += [marker(ref), pos_token(idx, targets[j])]
+                continue
+            if not ok(targets[j]) or (ns, name, j) in covered:
                 continue
             covered.add((ns, name, j))
             first = True
@@ -279,29 +496,87 @@ def gen_texts(case, rng=None):
         return out
 
     texts = []
-    if root in tab and not is_abs_name(root[1]):
+    probes = []
+    if root in tab and not is_abs_name(root[1]) and not is_match(rule_of(files[main], root[1])):
         texts.append(expand(list(root), 0))
         # single-path texts: root keyword, then one reference of the root, then one below it
         r0 = rule_of(files[main], root[1])
         for j, ref in enumerate(r0["refs"]):
             t = tab[root][j]
-            if guarded(ref) or not ok(t):
+            if is_link(ref) or is_val_name(ref["n"]) or not ok(t):
                 continue
             covered.clear()
             sub = expand(t, 39)  # keyword(s) only
             if sub:
                 texts.append([kw(idx, main, root[1])] + sub)
         texts.append([kw(idx, main, root[1])])
+        texts = texts[:MAX_TEXTS]
+
+        # probes: breadth-first over the common rules reachable through rule references
+        def commons(t, seen=()):
+            """the common rules a reference to t can start with (through abstract rules)"""
+            if not ok(t) or (t[0], t[1]) in seen:
+                return []
+            if not is_abs_name(t[1]):
+                return [(t[0], t[1])]
+            out = []
+            for x in tab[(t[0], t[1])]:
+                out += commons(x, seen + ((t[0], t[1]),))
+            return out
+
+        paths, todo = {root: [kw(idx, *root)]}, [root]
+        while todo:
+            cur = todo.pop(0)
+            r = rule_of(files[cur[0]], cur[1])
+            for j, ref in enumerate(r["refs"]):
+                if is_link(ref) or is_val_name(ref["n"]):
+                    continue
+                for nxt in commons(tab[cur][j]):
+                    if nxt not in paths:
+                        paths[nxt] = paths[cur] + [kw(idx, *nxt)]
+                        todo.append(nxt)
+        groups = []
+        for cur, path in paths.items():
+            r = rule_of(files[cur[0]], cur[1])
+            nlink = 0
+            for j, ref in enumerate(r["refs"]):
+                if is_link(ref):
+                    t, mark, name = tab[cur][len(r["refs"]) + nlink], "@", ref.get("m") or "ID"
+                    nlink += 1
+                elif is_val_name(ref["n"]):
+                    t, mark, name = tab[cur][j], marker(ref), ref["n"]
+                else:
+                    continue
+                if not okv(t):
+                    continue
+                comp = ([SAMPLE[name]] if name in SAMPLE else []) + \
+                    [lex(idx[x], name) for x in clos if (r2 := rule_of(files[x], name)) is not None and is_match(r2)]
+                comp = [x for x in comp if x != pos_token(idx, t)]
+                uniq = []
+                for x in [pos_token(idx, t)] + comp[:1] + alt_tokens(t) + comp[1:]:
+                    if x not in uniq:
+                        uniq.append(x)
+                # contested names (several rules of that name around) first: the documented target's token
+                # together with one competitor's, then round robin
+                groups.append((0 if comp else 1, len(groups), [path + [mark, x] for x in uniq], 2 if comp else 1))
+        groups.sort(key=lambda g: g[:2])
+        k = 0
+        while len(probes) < MAX_PROBES and any(k < len(g[2]) for g in groups):
+            for g in groups:
+                for x in g[2][k:k + g[3]] if k == 0 else g[2][k + g[3] - 1:k + g[3]]:
+                    if len(probes) < MAX_PROBES:
+                        probes.append(x)
+            k += 1
     seen, out = set(), []
-    for t in texts:
+    for t in texts + probes:
         if t and tuple(t) not in seen:
             seen.add(tuple(t))
             out.append(t)
-    return out[:5]
+    return out
 
 
 def default_queries(case):
-    qs = [{"q": None, "n": n} for n in ["Main"] + COMMON + ABSTR + ["INT", "Zz"]]
+    qs = [{"q": None, "n": n} for n in ["Main"] + COMMON + ABSTR + VALN + ["INT", "ID", "STRING", "FLOAT", "Zz"]]
     for f in case["files"]:
         for r in f["rules"]:
             qs.append({"q": f["ns"], "n": r["name"]})
@@ -323,14 +598,18 @@ def render(case, f):
     for r in f["rules"]:
         def rn(ref):
             return (nstr(ref["q"]) + "." if ref["q"] is not None else "") + ref["n"]
-        if is_abs_name(r["name"]):
+        if is_match(r):
+            body = " | ".join([f"'{lex(idx[ns], r['name'])}'"] + [rn(x) for x in r["refs"]])
+        elif is_abs_name(r["name"]):
             body = " | ".join(rn(x) for x in r["refs"])
         else:
             parts = [f"'{kw(idx, ns, r['name'])}'", "z?='~'"]
             for j, ref in enumerate(r["refs"]):
-                if ref["how"] == "link":
-                    parts.append(f"('@' l{j}=[{rn(ref)}])?")
-                elif ref["n"] in BASE:
+                if is_link(ref):
+                    parts.append(f"('@' l{j}=[{rn(ref)}{':' + ref['m'] if ref.get('m') else ''}])?")
+                elif is_val_name(ref["n"]) and ref["how"] == "bare":
+                    parts.append(f"('$' {rn(ref)})?")
+                elif is_val_name(ref["n"]):
                     parts.append(f"('#' a{j}={rn(ref)})?")
                 else:
                     parts.append(f"a{j}*={rn(ref)}")
@@ -349,6 +628,8 @@ class Prop(Check):
         "Imp.C25_lookup",
         "Imp.C25_lookup_general",
         "Imp.C25_lookup_cyclic_false",
+        "Imp.C25_own_first",
+        "Imp.C25_builtin",
         "Imp.C25_all_rules",
         "Imp.C25_qualified",
         "Imp.C25_getitem",
@@ -360,19 +641,24 @@ class Prop(Check):
     QUICK_CASES = 340
     THOROUGH_CASES = 7000
     CASE_TIMEOUT = 90
-    PROCS_THOROUGH = 4  # shared machine
+    PROCS_QUICK = 3  # shared machine
+    PROCS_THOROUGH = 3
     RULE = ("trees of 1..7 grammar files in nested directories with random import graphs (chains, diamonds, cycles, "
-            "self-imports, repeated imports), overlapping rule names, unqualified / qualified / link references, abstract "
-            "and single-reference rules, 1..5 model texts each; non-trivial = the grammars load, at least one reference "
+            "self-imports, repeated imports), overlapping rule names, unqualified / qualified / link references (implicit "
+            "and explicit match rule), abstract, single-reference and match rules, files that define rules named like the "
+            "built-in rules (ID, INT, …) and refer to them, 1..5 model texts plus up to 10 probe texts (token of the "
+            "documented match rule and of its competitors) each; non-trivial = the grammars load, at least one reference "
             "resolves into an imported file and a parsed text contains an object of an imported file's class")
     MODELLED = ("hand-modelled: metamodel.py _enter_namespace/_leave_namespace/_new_import/_init_class/_cls_fqn/__getitem__ and "
                 "the load order of lang.py (imports, classes, second pass) as Imp.loadMain; tie X: classes and _tx_fqn per "
-                "namespace, attribute class and PEG-rule class of every reference, metamodel[name], opened files, duplicate "
-                "class objects, fqn trees of parsed texts; not modelled: referenced languages (reference statement), "
-                "duplicate rule names inside one file, user classes, rule kinds")
+                "namespace, attribute class and PEG-rule class of every reference (the match rule of a link included), "
+                "metamodel[name], opened files, duplicate class objects, fqn trees with the values of parsed texts; not "
+                "modelled: referenced languages (reference statement), duplicate rule names inside one file, user classes, "
+                "rule kinds (a match rule is a rule without references)")
     ASSUMPTIONS = [
-        "rule names equal to base-type names and qualified names of files that the referring file does not import "
-        "directly are outside the documented fragment: the oracle does not judge them (the mirror model still does)",
+        "a built-in rule name that the file does not define but a direct import does, and qualified names of files that "
+        "the referring file does not import directly are outside the documented fragment: the oracle does not judge "
+        "them (the mirror model still does); a built-in name the file defines itself is the file's rule",
         "only direct imports are searched for an unqualified name (DESIGN reading)",
     ]
 
@@ -437,12 +723,25 @@ class Prop(Check):
             chosen = rng.sample(pool, k)
             if rng.chance(0.35):
                 chosen.append(rng.choice(ABSTR))
-            if rng.chance(0.04):
-                chosen.append(rng.choice(["INT", "ID"]))
-            chosen = rng.shuffle(chosen)
-            if i == 0:
-                chosen = ["Main"] + chosen
             f["rules"] = [{"name": n, "refs": []} for n in chosen]
+        # match rules: overlapping names too, among them the names of the built-in rules (a file may
+        # define its own ID, INT, …: "the rule of the current file if it defines one")
+        vpool = [n for n in VALN if rng.chance(0.55)]
+        nb = rng.weighted([(0, 4), (1, 4), (2, 2)])
+        while nb > 0:
+            n = rng.weighted([("ID", 4), ("INT", 4), ("STRING", 2), ("FLOAT", 2), ("BOOL", 1), ("NUMBER", 1),
+                              ("STRICTFLOAT", 1), ("BASETYPE", 1)])
+            if n not in vpool:
+                vpool.append(n)
+                nb -= 1
+        pdef = rng.choice([0.25, 0.5, 0.8])
+        for i, f in enumerate(files):
+            for n in vpool:
+                if rng.chance(pdef):
+                    f["rules"].append({"name": n, "kind": "match", "refs": []})
+            f["rules"] = rng.shuffle(f["rules"])
+            if i == 0:
+                f["rules"] = [{"name": "Main", "refs": []}] + f["rules"]
         fmap = {nstr(f["ns"]): f for f in files}
 
         def visible(f):
@@ -455,13 +754,54 @@ class Prop(Check):
         # most trees are valid by the documented order; a sloppy minority also names rules that are
         # not visible (only transitively imported, defined nowhere) or files that are not imported
         sloppy = rng.chance(0.12)
-        weights = [("vis", 62), ("qual", 20), ("any", 9), ("far", 7), ("base", 2)] if sloppy else \
-            [("vis", 76), ("qual", 21), ("far", 1), ("base", 2)]
+        weights = [("vis", 54), ("qual", 18), ("any", 9), ("far", 7), ("val", 12)] if sloppy else \
+            [("vis", 66), ("qual", 19), ("far", 1), ("val", 14)]
+
+        def val_ref(f, direct, unqualified=False):
+            """a reference to a match rule / built-in rule from file f"""
+            own_m = [r["name"] for r in f["rules"] if is_match(r)]
+            imp_m = [(i, x["name"]) for i in direct[1:] for x in fmap[i]["rules"] if is_match(x)]
+            all_m = [(i, x["name"]) for i in direct for x in fmap[i]["rules"] if is_match(x)]
+            kind = rng.weighted([("own", 4), ("imp", 3), ("builtin", 3), ("qual", 0 if unqualified else 2),
+                                 ("nowhere", 1 if sloppy else 0)])
+            if kind == "own" and own_m:
+                return {"q": None, "n": rng.choice(own_m)}
+            if kind == "imp" and imp_m:
+                return {"q": None, "n": rng.choice(imp_m)[1]}
+            if kind == "qual" and all_m:
+                q, n = rng.choice(all_m)
+                return {"q": fmap[q]["ns"], "n": n}
+            if kind == "nowhere":
+                return {"q": None, "n": rng.choice(VALN)}
+            n = rng.choice(["ID", "INT"] + BUILTIN)
+            if n not in own_m and any(x == n for _, x in imp_m) and rng.chance(0.7):
+                # (whether a direct import's rule of that name comes before the built-in one is not
+                # documented: mostly avoided)
+                free = [x for x in BUILTIN if x in own_m or not any(y == x for _, y in imp_m)]
+                n = rng.choice(free) if free else n
+            return {"q": None, "n": n}
+
         for f in files:
             vis = visible(f)
             own = [r["name"] for r in f["rules"]]
             direct = [nstr(f["ns"])] + [i for i in abs_imports(f) if i in fmap]
             for r in f["rules"]:
+                if is_match(r):
+                    # `T1: 'lexeme' | T0 | INT;` - rule references inside match rules.  T1 may name T0 and the
+                    # built-in names, T0 the built-in names, rules with built-in names nothing: whatever the
+                    # names resolve to, no rule is defined in terms of itself
+                    if r["name"] in VALN and rng.chance(0.35):
+                        allowed = BUILTIN + (["T0"] if r["name"] == "T1" else [])
+                        for _ in range(rng.randint(1, 2)):
+                            for _try in range(4):
+                                ref = val_ref(f, direct)
+                                if ref["n"] in allowed:
+                                    break
+                            else:
+                                ref = {"q": None, "n": rng.choice(["ID", "INT"])}
+                            ref["how"] = "alt"
+                            r["refs"].append(ref)
+                    continue
                 absr = is_abs_name(r["name"])
                 nrefs = rng.weighted([(1, 4), (2, 3), (3, 2)]) if absr else rng.weighted([(0, 2), (1, 4), (2, 4), (3, 2)])
                 if r["name"] == "Main":
@@ -469,7 +809,7 @@ class Prop(Check):
                 for _ in range(nrefs):
                     mode = rng.weighted(weights)
                     want_common = absr or rng.chance(0.75)
-                    ok_name = (lambda n: not is_abs_name(n) and n not in BASE and n != "Main") if want_common \
+                    ok_name = (lambda n: not is_abs_name(n) and not is_val_name(n) and n != "Main") if want_common \
                         else (lambda n: is_abs_name(n))
                     ref = None
                     if mode == "qual":
@@ -484,19 +824,20 @@ class Prop(Check):
                             ref = {"q": q["ns"], "n": rng.choice(cands)}
                     elif mode == "any":
                         ref = {"q": None, "n": rng.choice([n for n in COMMON + (["C9"] if rng.chance(0.3) else [])])}
-                    elif mode == "base" and not absr:
-                        # (a rule named like a base type is only ever referenced from files that do not define it:
-                        # textX treats an attribute whose class is *named* INT as a primitive)
-                        cands = [n for n in ["INT", "ID"] if n not in own]
-                        if cands:
-                            ref = {"q": None, "n": rng.choice(cands)}
+                    elif mode == "val" and not absr:
+                        ref = val_ref(f, direct)
                     if ref is None:
                         cands = [n for n in vis if ok_name(n)]
                         if not cands:
-                            cands = [n for n in vis if not is_abs_name(n) and n not in BASE and n != "Main"]
+                            cands = [n for n in vis if not is_abs_name(n) and not is_val_name(n) and n != "Main"]
                         # prefer names that several visible files define (overlaps decide the order question)
                         ref = {"q": None, "n": rng.choice(cands)}
-                    ref["how"] = "rule" if absr or ref["n"] in BASE or rng.chance(0.78) else "link"
+                    ref["how"] = "rule" if absr or is_val_name(ref["n"]) or rng.chance(0.78) else "link"
+                    if is_val_name(ref["n"]) and rng.chance(0.2):
+                        ref["how"] = "bare"  # a rule reference without assignment
+                    if is_link(ref) and rng.chance(0.45):
+                        # `[X:M]`: the match rule of a link is a rule name like any other (`[X]` means `[X:ID]`)
+                        ref["m"] = val_ref(f, direct, unqualified=True)["n"]
                     r["refs"].append(ref)
         if rng.chance(0.1):
             # a single-reference rule (A: C;) whose target lives in an import of its own file: the
@@ -600,7 +941,8 @@ class Prop(Check):
             builtins.open = logging_open
             try:
                 try:
-                    mm = metamodel_from_file(os.path.join(tmp, case["main"] + ".tx"))
+                    # (auto_init_attributes=False: an attribute no text assigned stays None whatever its type is named)
+                    mm = metamodel_from_file(os.path.join(tmp, case["main"] + ".tx"), auto_init_attributes=False)
                 finally:
                     builtins.open = real_open
             except TextXSemanticError as e:
@@ -618,7 +960,7 @@ class Prop(Check):
         return out
 
     def observe(self, case, mm, opened):
-        from textx.exceptions import TextXError
+        from textx.exceptions import TextXError, TextXSemanticError
 
         base = mm.namespaces.get("__base__", {})
         objs = {}  # fqn -> list of distinct class objects
@@ -655,7 +997,14 @@ class Prop(Check):
                     continue
                 entry = {"cls": [], "peg": []}
                 peg = c._tx_peg_rule
-                if is_abs_name(name):
+                if is_match(r):
+                    # 'lexeme' | R1 | R2 …: an ordered choice when there are references
+                    nodes = list(getattr(peg, "nodes", []))[1:] if r["refs"] else []
+                    if len(nodes) != len(r["refs"]):  # another shape of the parser model: not observed here
+                        nodes = [None] * len(r["refs"])
+                    entry["peg"] = [describe(getattr(n, "_tx_class", None)) for n in nodes]
+                    entry["cls"] = [None] * len(r["refs"])
+                elif is_abs_name(name):
                     if len(r["refs"]) == 1:
                         entry["peg"] = [describe(getattr(peg, "_tx_class", None))]
                     else:
@@ -677,14 +1026,35 @@ class Prop(Check):
                             walk(ch)
 
                     walk(peg, True)
+
+                    def first_root(n):
+                        if getattr(n, "root", False):
+                            return n
+                        for ch in getattr(n, "nodes", []):
+                            x = first_root(ch)
+                            if x is not None:
+                                return x
+                        return None
+
+                    parts = list(getattr(peg, "nodes", []))[2:]  # after the keyword and z?='~'
+                    if len(parts) != len(r["refs"]):  # another shape of the parser model: not observed here
+                        parts = []
                     for j, ref in enumerate(r["refs"]):
-                        an = f"l{j}" if ref["how"] == "link" else f"a{j}"
+                        an = f"l{j}" if is_link(ref) else f"a{j}"
                         attr = c._tx_attrs.get(an)
                         entry["cls"].append(describe(attr.cls) if attr is not None else None)
-                        if ref["how"] == "link" or an not in asg:
+                        if ref["how"] == "bare":  # ('$' NAME)?: the rule the part refers to
+                            x = first_root(parts[j]) if j < len(parts) else None
+                            entry["peg"].append(describe(getattr(x, "_tx_class", None)) if x is not None else None)
+                        elif is_link(ref) or an not in asg:
                             entry["peg"].append(None)
                         else:
                             entry["peg"].append(describe(getattr(asg[an].nodes[0], "_tx_class", None)))
+                    for j, ref in enumerate(r["refs"]):
+                        if is_link(ref):  # the match rule of the link: a PEG-level reference only
+                            an = f"l{j}"
+                            entry["cls"].append(None)
+                            entry["peg"].append(describe(getattr(asg[an].nodes[0], "_tx_class", None)) if an in asg else None)
                 resolved[f"{ns}:{name}"] = entry
         queries = []
         for q in case["queries"]:
@@ -717,6 +1087,8 @@ class Prop(Check):
                             attrs.append([an, [tree(x, depth + 1) for x in v]])
                     elif v is not None and hasattr(type(v), "_tx_fqn"):
                         attrs.append([an, [tree(v, depth + 1)]])
+                    elif v is not None:
+                        attrs.append([an, [{"v": repr(v)}]])
             return [c._tx_fqn, attrs]
 
         models = []
@@ -724,7 +1096,9 @@ class Prop(Check):
             try:
                 m = mm.model_from_str(" ".join(toks))
                 models.append(tree(m))
-            except TextXError as e:
+            except TextXSemanticError:
+                models.append("sem")
+            except TextXError:
                 models.append("err")
             except RecursionError:
                 models.append({"exc": "RecursionError"})
@@ -738,7 +1112,7 @@ class Prop(Check):
     def model_req(self, case, obs):
         return {"op": "imports", "main": case["main"],
                 "files": [{"ns": f["ns"], "imports": f["imports"],
-                           "rules": [{"name": r["name"], "refs": [{"q": x["q"], "n": x["n"]} for x in r["refs"]]}
+                           "rules": [{"name": r["name"], "refs": [{"q": x["q"], "n": x["n"]} for x in xrefs(r)]}
                                      for r in f["rules"]]} for f in case["files"]],
                 "queries": [{"q": q["q"], "n": q["n"]} for q in case["queries"]]}
 
@@ -761,7 +1135,7 @@ class Prop(Check):
             ns = nstr(e["ns"])
             ts = [tgt(t) for t in e["targets"]]
             resolved[f"{ns}:{e['rule']}"] = ts
-            table[(ns, e["rule"])] = [([nstr(cl[t["cls"]][0]), cl[t["cls"]][1]] if "cls" in t else None)
+            table[(ns, e["rule"])] = [([nstr(cl[t["cls"]][0]), cl[t["cls"]][1]] if "cls" in t else [BASENS, t["base"]])
                                       for t in e["targets"]]
         fq = [nstr(ns) + "." + n for ns, n in cl]
         return {"classes": sorted([nstr(ns), n, nstr(ns) + "." + n] for ns, n in cl), "resolved": resolved,
@@ -831,8 +1205,6 @@ class Prop(Check):
         tab = spec_table(case, clos, skipmap)
         unresolvable = [(k, j) for k, ts in tab.items() for j, t in enumerate(ts) if t is None]
         has_out = any(t == OUT for ts in tab.values() for t in ts)
-        out_unguarded = any(t == OUT and not guarded(rule_of(files[k[0]], k[1])["refs"][j])
-                            for k, ts in tab.items() for j, t in enumerate(ts))
         if obs["load"] != "ok":
             if obs["load"] != "semantic":
                 return (f"loading grammar files that exist and follow the documented grammar syntax fails with "
@@ -842,7 +1214,7 @@ class Prop(Check):
             return f"every rule name resolves by the documented order, yet loading fails: {obs['load']} {obs.get('msg', '')}"
         if unresolvable:
             (ns, rn), j = unresolvable[0]
-            ref = rule_of(files[ns], rn)["refs"][j]
+            ref = xrefs(rule_of(files[ns], rn))[j]
             return (f"{ns}:{rn} refers to {ref['n']} (q={ref['q']}) which neither the file nor a direct import defines, "
                     f"yet the grammars load (resolved to {obs['resolved'].get(ns + ':' + rn)})")
         # one set of classes per file, file-based qualified names
@@ -863,23 +1235,27 @@ class Prop(Check):
                     continue
                 for lvl in ("cls", "peg"):
                     o = e[lvl][j] if j < len(e[lvl]) else "missing"
-                    want = {"fqn": f"{t[0]}.{t[1]}"}
-                    if lvl == "peg":
-                        pf = peg_follow(files, ptab, t)
-                        if pf is None:
-                            continue
-                        want = {"fqn": f"{pf[0]}.{pf[1]}"}
+                    if t[0] == BASENS:
+                        want = {"base": t[1]}
+                    else:
+                        want = {"fqn": f"{t[0]}.{t[1]}"}
+                        if lvl == "peg":
+                            pf = peg_follow(files, ptab, t)
+                            if pf is None:
+                                continue
+                            want = {"fqn": f"{pf[0]}.{pf[1]}"}
                     if o is not None and o != want:
-                        ref = rule_of(files[ns], rn)["refs"][j]
-                        return (f"{ns}:{rn} reference {j} ({'.'.join(ref['q']) + '.' if ref['q'] else ''}{ref['n']}) resolves to "
-                                f"{o} ({lvl}); documented order gives {want['fqn']}")
+                        ref = xrefs(rule_of(files[ns], rn))[j]
+                        return (f"{ns}:{rn} reference {j} ({'.'.join(ref['q']) + '.' if ref['q'] else ''}{ref['n']}"
+                                f"{', match rule of a link' if ref['how'] == 'lm' else ''}) resolves to "
+                                f"{o} ({lvl}); documented order gives {want.get('fqn') or 'the built-in ' + t[1]}")
         main = case["main"]
         for q, o in zip(case["queries"], obs["queries"]):
             if q["q"] is None:
                 t = doc_resolve(files, main, {"q": None, "n": q["n"]}, (skipmap or {}).get(main, ()))
                 if t == OUT:
                     continue
-                want = None if t is None else {"fqn": f"{t[0]}.{t[1]}"}
+                want = None if t is None else {"base": t[1]} if t[0] == BASENS else {"fqn": f"{t[0]}.{t[1]}"}
             else:
                 qn = nstr(q["q"])
                 if qn not in clos:
@@ -887,12 +1263,10 @@ class Prop(Check):
                 want = {"fqn": f"{qn}.{q['n']}"} if defines(files, qn, q["n"]) else None
             if o != want:
                 return f"metamodel[{q}] gives {o}, expected {want}"
-        if not out_unguarded:
-            table = {k: [t if t != OUT else None for t in ts] for k, ts in tab.items()}
-            for toks, o in zip(case["texts"], obs["models"]):
-                want = simulate(case, table, toks)
-                if o != want:
-                    return f"text {' '.join(toks)!r}: parsed objects {o}, documented resolution gives {want}"
+        for toks, o in zip(case["texts"], obs["models"]):
+            want = simulate(case, tab, toks)
+            if want != "unknown" and o != want:  # unknown: the parse needs a reference the statement does not decide
+                return f"text {' '.join(toks)!r}: parsed objects {o}, documented resolution gives {want}"
         return None
 
     def oracle(self, case, obs):
@@ -971,6 +1345,13 @@ class Prop(Check):
                     files = copy.deepcopy(fs)
                     del files[i]["rules"][k]["refs"][j]
                     yield mk(files)
+        for i, f in enumerate(fs):
+            for k, r in enumerate(f["rules"]):
+                for j, x in enumerate(r["refs"]):
+                    if x.get("m"):
+                        files = copy.deepcopy(fs)
+                        del files[i]["rules"][k]["refs"][j]["m"]
+                        yield mk(files)
 
     def extra_search(self, rng, tier, broken):
         return [self.gen_one(rng, tier) for _ in range(600 if tier == "quick" else 4000)]
@@ -982,7 +1363,9 @@ class Prop(Check):
     def extra_evidence(self, cases, obs, model_outs):
         dist = {"load": {}, "shape": {}, "files": {}, "with_back_edge": 0, "with_diamond": 0, "nested_dirs": 0,
                 "refs": 0, "refs_into_imports": 0, "qualified_refs": 0, "texts": 0, "texts_parsed": 0,
-                "finding_cases": 0}
+                "texts_link_read": 0, "finding_cases": 0, "match_rules": 0, "cases_redefining_builtin": 0,
+                "refs_to_match_or_builtin": 0, "refs_to_own_rule_with_builtin_name": 0, "links_explicit_match_rule": 0,
+                "links_matched_by_own_rule_with_builtin_name": 0}
         for c, o in zip(cases, obs):
             if not isinstance(o, dict) or "load" not in o:
                 continue
@@ -1002,12 +1385,22 @@ class Prop(Check):
                 dist["with_diamond"] += 1
             if any(len(f["ns"]) > 1 for f in c["files"]):
                 dist["nested_dirs"] += 1
+            if any(is_match(r) and r["name"] in BUILTIN for f in c["files"] for r in f["rules"]):
+                dist["cases_redefining_builtin"] += 1
             for f in c["files"]:
                 for r in f["rules"]:
-                    for x in r["refs"]:
+                    dist["match_rules"] += is_match(r)
+                    for x in xrefs(r):
                         dist["refs"] += 1
                         if x["q"] is not None:
                             dist["qualified_refs"] += 1
+                        if is_val_name(x["n"]):
+                            dist["refs_to_match_or_builtin"] += 1
+                            if x["q"] is None and x["n"] in BUILTIN and rule_of(f, x["n"]) is not None:
+                                dist["refs_to_own_rule_with_builtin_name"] += 1
+                                dist["links_matched_by_own_rule_with_builtin_name"] += x["how"] == "lm"
+                        if x.get("m"):
+                            dist["links_explicit_match_rule"] += 1
             if o["load"] == "ok":
                 for key, e in o["resolved"].items():
                     ns = key.split(":")[0]
@@ -1016,6 +1409,7 @@ class Prop(Check):
                             dist["refs_into_imports"] += 1
                 dist["texts"] += len(o["models"])
                 dist["texts_parsed"] += sum(1 for t in o["models"] if isinstance(t, list))
+                dist["texts_link_read"] += sum(1 for t in o["models"] if t == "sem")
             if self.oracle_core(c, o) is not None and self.classify(c, o, "") == KF_CYCLE:
                 dist["finding_cases"] += 1
         return {"distribution": dist}
